@@ -375,6 +375,14 @@ fn vehicle_type_index(sp: &SProblem, vid: &str) -> Option<usize> {
 /// input shapes on which the checker is known to be wrong (open deviations; carried in the corpus instead)
 fn hits_open_deviation(_sp: &SProblem, sol: &Value) -> Option<&'static str> {
     for t in sol["tours"].as_array().unwrap() {
+        // D11: a reload stop that is the LAST stop does not start a new load interval; jobs served in it after the reload
+        // are then counted into the previous interval ("load mismatch")
+        if let Some(last) = t["stops"].as_array().unwrap().last() {
+            let acts = acts_of(last);
+            if acts.first().map(|a| a["type"] == "reload").unwrap_or(false) && acts.iter().any(|a| is_job_type(a["type"].as_str().unwrap())) {
+                return Some("last_stop_reload_with_jobs");
+            }
+        }
         for (si, s) in t["stops"].as_array().unwrap().iter().enumerate() {
             // D9: only the FIRST activity of a stop makes it a reload stop
             let skip = if si == 0 { 0 } else { 1 };
@@ -694,8 +702,18 @@ fn mutants(rng: &mut Rng, sp: &SProblem, sol: &Value) -> Vec<Value> {
                 // break reported at another location than any of its places
                 let mut t2 = t.clone();
                 let here = a.get("loc").and_then(|x| x.as_u64()).unwrap_or(s["loc"].as_u64().unwrap()) as usize;
-                t2["stops"][si]["activities"][ai]["loc"] = json!((here + 1) % sp.n);
-                push("misplaced_break_location", site.clone(), json!({"tours": replace_tour(ti, t2)}));
+                // a location the problem knows (unknown indices are a different error)
+                let known: BTreeSet<usize> = sp
+                    .jobs
+                    .iter()
+                    .flat_map(|j| j.tasks.iter())
+                    .flat_map(|t| t.places.iter().map(|p| p.loc))
+                    .chain(sp.vehicles.iter().flat_map(|v| v.shifts.iter().map(|s| s.start_loc)))
+                    .collect();
+                if let Some(other) = known.iter().find(|l| **l != here) {
+                    t2["stops"][si]["activities"][ai]["loc"] = json!(other);
+                    push("misplaced_break_location", site.clone(), json!({"tours": replace_tour(ti, t2)}));
+                }
             }
         }
     }
